@@ -283,7 +283,29 @@ def hashable_key(v):
 # sorting (forks on symbolic comparisons; optional adversarial tie order)
 # ----------------------------------------------------------------------------
 
-TIE_MODE = {"mode": "adversarial"}   # or "stable"
+# Tie policy of the default (quicksort) single-key sort_values.  "adversarial": every permutation of
+# a run of equal keys is explored (numpy's SIMD argsort really is unstable).  Sorts issued by the hta
+# functions named in stable_funcs are taken as stable (presentation sorts whose row order no obligation
+# reads); runs longer than max_run explore identity, reversal and every adjacent transposition only.
+# skip_funcs: sorts issued by these hta functions are not modelled at all (rows keep their order): a
+# recorded cut for pure presentation sorts on symbolic keys whose result order no obligation reads.
+TIE_MODE = {"mode": "adversarial", "stable_funcs": set(), "skip_funcs": set(), "max_run": 4}
+
+
+def _site_in(sf):
+    if not sf:
+        return False
+    import sys
+    f = sys._getframe(2)
+    while f is not None:
+        if f.f_code.co_filename.startswith("/repo/"):
+            return f.f_code.co_name in sf
+        f = f.f_back
+    return False
+
+
+def _tie_site_stable():
+    return _site_in(TIE_MODE["stable_funcs"])
 
 
 def _lt_cells(a, b):
@@ -328,6 +350,9 @@ def sort_positions(keycols, ascending=True, stable=True):
     is chosen nondeterministically (every permutation is explored) unless
     TIE_MODE is 'stable'."""
     n = len(keycols[0]) if keycols else 0
+    if TIE_MODE["skip_funcs"] and E.active() and _site_in(TIE_MODE["skip_funcs"]) and not all(
+            all_concrete(c) for c in keycols):
+        return list(range(n))
     asc = ascending if isinstance(ascending, (list, tuple)) else [ascending] * len(keycols)
     keys = [tuple(c[i] for c in keycols) for i in range(n)]
     order = []          # positions, sorted
@@ -342,7 +367,7 @@ def sort_positions(keycols, ascending=True, stable=True):
             j -= 1
         order.insert(j, i)
     eq_next = [res.get((order[j], order[j + 1])) == 0 for j in range(len(order) - 1)]
-    if not stable and TIE_MODE["mode"] == "adversarial" and E.active():
+    if not stable and TIE_MODE["mode"] == "adversarial" and E.active() and any(eq_next) and not _tie_site_stable():
         out, run = [], []
         for j, p in enumerate(order):
             run.append(p)
@@ -359,6 +384,14 @@ def _choose_perm(run):
     run = list(run)
     out = []
     e = E.cur()
+    if len(run) > TIE_MODE["max_run"]:
+        k = e.choose(len(run) + 1, "tie-long")
+        if k == 0:
+            return run
+        if k == 1:
+            return run[::-1]
+        run[k - 2], run[k - 1] = run[k - 1], run[k - 2]
+        return run
     while len(run) > 1:
         k = e.choose(len(run), "tie")
         out.append(run.pop(k))
